@@ -114,6 +114,36 @@ fn main() {
                 expect: "3 [7, 8, 9]\n[4, 5, 6] [1, 2, 3]\n[7, 8, 9] [4, 5, 6] [1, 2, 3]\n[\"z\", \"bc\", \"de\", \"abc\"]\n",
             },
         ],
+        "C15" => vec![Caller {
+            what: "box_arr! as a boxed constructor from caller code: the empty list, a trailing comma, a length that is a type parameter of the caller, one evaluation of the repeat operand, a 32 MiB array",
+            externs: &[],
+            src: r#"
+use generic_array::box_arr;
+fn filled<N: ArrayLength>() -> Box<GenericArray<u8, N>> {
+    box_arr![7u8; N]
+}
+fn longer<N: ArrayLength + Add<U3>>() -> usize where Sum<N, U3>: ArrayLength {
+    let b: Box<GenericArray<u16, Sum<N, U3>>> = box_arr![9u16; Sum<N, U3>];
+    b.len()
+}
+fn main() {
+    let e: Box<GenericArray<String, U0>> = box_arr![];
+    println!("{}", e.len());
+    let t = box_arr![1u8, 2, 3,];
+    println!("{:?}", &t[..]);
+    println!("{:?} {}", &filled::<U5>()[..], filled::<Sum<U1000, U24>>().len());
+    println!("{}", longer::<U4>());
+    let mut calls = 0;
+    let r = box_arr![{ calls += 1; String::from("x") }; U4];
+    println!("{} {:?}", calls, &r[..]);
+    let big = box_arr![1u64; 4194304];
+    println!("{}", big.iter().sum::<u64>());
+    let v: Vec<u64> = big.into_vec();
+    println!("{}", v.len());
+}
+"#,
+            expect: "0\n[1, 2, 3]\n[7, 7, 7, 7, 7] 1024\n7\n1 [\"x\", \"x\", \"x\", \"x\"]\n4194304\n4194304\n",
+        }],
         "C14" => vec![Caller {
             what: "{:x} / {:X} / {:.3x} in code generic over N with the bounds of `impl LowerHex` / `impl UpperHex`",
             externs: &[],
